@@ -95,6 +95,9 @@ def _part_body(i):
     spec = rt.PART_LEVELS[i]
     rt._log.append(("p%d" % i, {}))
     own = {k: values.build(v) for k, v in spec["own"].items()}
+    if spec["staging"] == "passthrough" and i > 0:
+        # hands on, as it is, the partition another memento function returned
+        return PARTS[i - 1]()
     if spec["staging"] in ("impart", "impart_dd"):
         from twosigma.memento.partition import InMemoryPartition
         if spec["staging"] == "impart_dd":
